@@ -279,4 +279,6 @@ func runC07(c *Ctx) {
 	}
 	// the lexer model against zlexer.Next, token by token
 	lexStream(c, c.Scale(3000, 60000))
+	// $INCLUDE on the model: which files are opened, in which order, and where the reading stops
+	includeTreeStream(c, "include-tree", c.Scale(400, 8000))
 }
